@@ -305,6 +305,7 @@ pub proof fn lemma_sr_head(pad: int, n: int, ssrc: u32, ntp: u64, rtp: u32, pc: 
 
 /// a packet image  head | blocks | padding  : header fields, block positions and the trailer
 #[verifier::spinoff_prover]
+#[verifier::rlimit(40)]
 pub proof fn lemma_framed_blocks(s: Seq<u8>, head: Seq<u8>, blocks: Seq<Seq<u8>>, pad: int, pt: int, min: int)
     requires
         0 <= pad <= 255,
@@ -726,6 +727,7 @@ pub proof fn lemma_bye_body(s: Seq<u8>, sources: Seq<u32>, reason: Seq<u8>)
 
 #[verifier::spinoff_prover]
 // @LEMMA C04
+#[verifier::rlimit(40)]
 pub proof fn lemma_roundtrip_bye(b: &crate::ByeBuilder)
     requires
         b.spec_calc() is Ok,
